@@ -147,6 +147,40 @@ func staticBackends() []backendErr {
 	return out
 }
 
+// compositeBackends: values which are a cancellation or a deadline (errors.Is) and at the same time carry another
+// backend condition — as a second wrapped error, as a joined error or only as text. Whatever else they say, the
+// converters must report them as cancelled / timeout.
+func compositeBackends(plain []backendErr) []backendErr {
+	var out []backendErr
+	ctxs := []struct {
+		name string
+		err  error
+		kind int
+	}{{"context.Canceled", context.Canceled, kCancelled}, {"context.DeadlineExceeded", context.DeadlineExceeded, kTimeout}}
+	for _, c := range ctxs {
+		for _, be := range plain {
+			if be.Ctx >= 0 || be.Err == nil {
+				continue
+			}
+			x := be.Err
+			forms := []struct {
+				name string
+				err  error
+			}{
+				{"fmt.Errorf(\"%w: %v\", ctx, x)", fmt.Errorf("%w: %v", c.err, x)},
+				{"fmt.Errorf(\"%w: %w\", ctx, x)", fmt.Errorf("%w: %w", c.err, x)},
+				{"errors.Join(ctx, x)", errors.Join(c.err, x)},
+				{"errors.Join(x, ctx)", errors.Join(x, c.err)},
+				{"fmt.Errorf(\"%v: %w\", x, ctx)", fmt.Errorf("%v: %w", x, c.err)},
+			}
+			for _, f := range forms {
+				out = append(out, backendErr{Name: "composite " + f.name + " ctx=" + c.name + " x=" + be.Name, Class: "context+" + be.Class, Err: f.err, Ctx: c.kind})
+			}
+		}
+	}
+	return out
+}
+
 // provokedBackends collects the real errors OsFs and MemMapFs return for a set of provoked conditions.
 func provokedBackends(r *vrun.Run) []backendErr {
 	var out []backendErr
